@@ -555,7 +555,13 @@ func (ri *reachInfo) PathTo(instr ssa.Instruction) string {
 
 var errorType = types.Universe.Lookup("error").Type()
 
-func isErrorType(t types.Type) bool { return types.Identical(t, errorType) }
+func isErrorType(t types.Type) bool {
+	switch t.(type) {
+	case *types.Named, *types.Interface, *types.Alias:
+		return types.Identical(t, errorType)
+	}
+	return false // tuples, go/ssa's opaque iterator type, ...
+}
 
 // errorResultIndex returns the index of the (last) error result of fn, or -1.
 func errorResultIndex(sig *types.Signature) int {
